@@ -523,9 +523,18 @@ func TestC17FailedSend(t *testing.T) {
 		S := fixture.New(name)
 		defer S.Close()
 		body := fixture.Payload(key, sz)
+		// every message of the failing phase has a body of its own, so that "the re-sent one arrived
+		// intact" cannot be satisfied by another message
+		nth := 0
+		bodyOf := map[*mangos.Message][]byte{}
 		mk := func() *mangos.Message {
 			m := mangos.NewMessage(sz)
 			m.Body = append(m.Body, body...)
+			if outcome != "success" {
+				nth++
+				m.Body = append(m.Body, byte('0'+nth))
+				bodyOf[m] = append([]byte(nil), m.Body...)
+			}
 			if h := rawHdr(name); h != nil {
 				m.Header = append(m.Header, h...)
 			}
@@ -601,8 +610,8 @@ func TestC17FailedSend(t *testing.T) {
 					fail("failed-send-released", "SendMsg returned %v but the message was released: on failure ownership stays with the caller", err)
 					return
 				}
-				if !bytes.Equal(m.Body, body) {
-					fail("failed-send-altered", "SendMsg returned %v and left the body altered (len %d, want %d)", err, len(m.Body), len(body))
+				if !bytes.Equal(m.Body, bodyOf[m]) {
+					fail("failed-send-altered", "SendMsg returned %v and left the body altered (len %d, want %d)", err, len(m.Body), len(bodyOf[m]))
 					return
 				}
 				failedMsgs = append(failedMsgs, m)
@@ -622,6 +631,7 @@ func TestC17FailedSend(t *testing.T) {
 			}
 			m := failedMsgs[0]
 			failedMsgs = failedMsgs[1:]
+			want := bodyOf[m]
 			if err := S.SendMsg(m); err != nil {
 				fail("resend-failed", "re-sending the message kept after a failed Send: %v", err)
 				return
@@ -633,7 +643,16 @@ func TestC17FailedSend(t *testing.T) {
 				if err != nil {
 					break
 				}
-				found = bytes.Equal(rm.Body, body)
+				found = bytes.Equal(rm.Body, want)
+				known := found
+				for _, b := range bodyOf {
+					known = known || bytes.Equal(rm.Body, b)
+				}
+				if !known {
+					fail("resend-not-delivered", "after a failed Send and a retry the peer received %d bytes (first %x) that equal none of the messages sent (%d bytes each)", len(rm.Body), trunc(rm.Body), len(want))
+					rm.Free()
+					return
+				}
 				rm.Free()
 			}
 			if !found {
